@@ -24,6 +24,19 @@ reals; that this instance computes what Rust's `f32` computes (`==`, `-`, `as f3
 correspondence stream `c08.real` compares, and the oracle `c08.laws` checks the laws on Rust's `f32` directly.
 `intLaws`, `zLaws` are further instances (`zLaws`: two zeros that are `==`).
 
+**Lexical composition (L2).**  `Model/ContentBytes.lean` is the byte level around the token level: what
+`serialize_ops` writes byte for byte (`serializeBytes`: `struct Real`, `serialize_name`, `PdfString::serialize`,
+`Primitive::serialize` — the shared writer model of C04 —, one space after every operand, a line feed after every
+operator) and the loop of `OpBuilder::parse` on bytes (`parseBytes`: the shared `parseWithLexer` until it fails, then
+`next` as operator, `Content.add`).  `parse_any_spelling` (every conformant spelling of a token sequence — any
+white-space, comments, omitted separators, any spelling of each operand — reads as the token sequence),
+`parse_serialize_bytes` (`parse_bytes (serialize_bytes ops) ≈ ops`) and `parse_contents_parts` (a `/Contents`
+array) compose the token-level theorems with the operand round trip of C04 (`serialize_spells`,
+`parseCtx_spells`) and the lexer's token-boundary lemmas.  Additional hypotheses, all about third-party code or
+about what the shared parser model does not carry: `FmtLaws` (`Display for f32` / `f32::from_str` agree with the
+real-number interface; checked on Rust's `f32` by the oracle `c08.laws`) and `EofFacts` (which errors are
+`PdfError::EOF`; proved for the driver's oracle, `lexOracle_facts`).
+
 `cfg.primDot` says whether `Primitive::Number` is written with a decimal point always (D9 of the C03/C04
 package repaired in primitive.rs); the check detects it on the tree under test and passes it to the model.
 -/
